@@ -34,6 +34,16 @@ def regenerate_guards(pid):
     """Re-translate the decision logic of the functions listed for `pid` (translate/py2lean_guards.py) from the lenskit importable now
     (and, for C04, the gather / mask / scatter code of the scorers, translate/py2lean_scatter.py).  Returns (status, message, info)."""
     import py2lean_guards, lenskit
+    if pid == "C17":
+        import py2lean_arrow
+        info = {"module": "LK.Gen.ArrowC17", "obligations": "LK/Proofs/ArrowC17.lean", "sites": ["data/builder.py:_expand_and_align_list_array → expandAlignT"]}
+        target = LEAN_DIR / "LK" / "Generated" / "ArrowC17.lean"
+        try: text = py2lean_arrow.translate(os.path.dirname(lenskit.__file__))
+        except py2lean_arrow.Unsupported as e: return "untranslatable", str(e), info
+        old = target.read_text() if target.exists() else ""
+        if text != old: target.write_text(text)
+        info["changed_since_last_run"] = text != old
+        return "ok", "regenerated" if text != old else "unchanged", info
     if pid == "C04":
         import py2lean_scatter
         info = {"module": "LK.Gen.ScatterC04", "obligations": "LK/Proofs/ScatterC04.lean", "sites": [f"{rel}:{cls}.__call__ → {nm}" for rel, cls, nm in py2lean_scatter.SCORERS]}
@@ -150,7 +160,7 @@ def main():
     quiet_lenskit()
     mod = importlib.import_module(f"lkv.props.{a.pid.lower()}")
     seed = int(os.environ.get("VERIF_SEED", "0")); ginfo = None
-    if a.pid in guard_pids() or a.pid == "C04":
+    if a.pid in guard_pids() or a.pid in ("C04", "C17"):
         gstatus, gmsg, ginfo = regenerate_guards(a.pid)
         if gstatus == "untranslatable":
             sys.exit(obligation_broken(a.pid, "untranslatable: " + gmsg, mod, a.tier, seed, a.replay, ginfo))
@@ -159,7 +169,7 @@ def main():
         if status in ("untranslatable", "obligation-broken"):
             sys.exit(search_chunking(a.pid, f"{status}: {msg}"))
         if status == "build-error":
-            if ginfo is not None and any(f"{k}{a.pid}" in msg for k in ("Guards", "Wiring", "Scatter", "Np", "Imp", "Holdout")):
+            if ginfo is not None and any(f"{k}{a.pid}" in msg for k in ("Guards", "Wiring", "Scatter", "Np", "Imp", "Holdout", "Arrow")):
                 sys.exit(obligation_broken(a.pid, "obligation-broken: " + msg.replace("\n", " | ")[:900], mod, a.tier, seed, a.replay, ginfo))
             print(f"machinery error: lake build failed\n{msg}", file=sys.stderr); sys.exit(2)
     else:
@@ -167,7 +177,7 @@ def main():
         r = subprocess.run(["lake", "build", f"LK.Props.{a.pid}", "lkdriver"], cwd=LEAN_DIR, capture_output=True, text=True, timeout=1800)
         if r.returncode != 0:
             bad = [l for l in (r.stdout + r.stderr).splitlines() if "error" in l][:8]
-            if ginfo is not None and any(any(f"{k}{a.pid}" in l for k in ("Guards", "Wiring", "Scatter", "Np", "Imp", "Holdout")) for l in bad):
+            if ginfo is not None and any(any(f"{k}{a.pid}" in l for k in ("Guards", "Wiring", "Scatter", "Np", "Imp", "Holdout", "Arrow")) for l in bad):
                 sys.exit(obligation_broken(a.pid, "obligation-broken: " + " | ".join(bad)[:900], mod, a.tier, seed, a.replay, ginfo))
             print("machinery error: lake build failed\n" + "\n".join(bad[:6]), file=sys.stderr); sys.exit(2)
     try:
